@@ -18,7 +18,7 @@ OPTS = {'quick': {'unit_timeout_s': 900}}
 
 META = {
     'assumptions': [
-        'B (bounded scenarios): seven edit scripts (plain files/dirs incl. an empty file, Joliet with a long name and an ISO-only file, Rock Ridge with a 224-character name, relative and absolute symlinks and nested dirs, Rock Ridge 1.12 + Joliet with removals and a hidden file, hard links, 60 files in one directory (multi-sector directory), eight nested Rock Ridge directories (relocation)); every file CONTENT is symbolic, so byte-for-byte fidelity is proved for every content of the given sizes',
+        'B (bounded scenarios): eight edit scripts and random edit histories in nine image flavours (files of boundary sizes, directories, removals, hard links in both namespaces, symbolic links, hidden flags, long / non-ASCII names; every operation drawn from the current state of the tree) (plain files/dirs incl. an empty file, Joliet with a long name and an ISO-only file, Rock Ridge with a 224-character name, relative and absolute symlinks and nested dirs, Rock Ridge 1.12 + Joliet with removals and a hidden file, hard links, 60 files in one directory (multi-sector directory), eight nested Rock Ridge directories (relocation)); every file CONTENT is symbolic, so byte-for-byte fidelity is proved for every content of the given sizes',
         'the image is decoded by an independent reader written from ECMA-119 / Joliet / SUSP-RRIP (contracts/reader.py, no pycdlib code); the reader itself is trusted',
         'the unbounded, per-structure side of C01 is the set of function-level contracts of C03 (record / descriptor layouts, packing and writer step lemmas), C05 (parse/record round trips) and C16 (data copy loop), which this check also runs',
     ],
@@ -26,11 +26,11 @@ META = {
         'arbitrary edit histories and tree shapes: the tree-induction step (the records reachable by a reader are exactly the ones the API built) is only exercised on the scripts',
         'UDF namespace (C10) is not decoded by the independent reader in this check',
     ],
-    'bounded': ['7 edit scripts, file sizes 0..3000 bytes'],
+    'bounded': ['8 edit scripts + 9 random edit histories (thorough: 108, moved by VERIF_SEED), file sizes 0..5000 bytes'],
 }
 
 MANIFEST = {
-    'level_text': 'Bounded scenarios executed by the verifier on the real code with SYMBOLIC file contents + the unbounded function-level contracts they rest on: each of seven edit scripts is mastered by the real new/add_*/rm_*/write_fp code inside pyvc; an independent ECMA-119/Joliet/RRIP reader must find exactly the implied ISO9660, Joliet and Rock Ridge trees, names, types, link counts, symlink targets, hidden flags, every file byte for byte, valid structure, disjoint allocation and exact length; the library must reopen its image, show the same and re-master it identically (edits of reopened images: C02). One defect found and repaired (K38: ".." length).',
+    'level_text': 'Bounded scenarios executed by the verifier on the real code with SYMBOLIC file contents + the unbounded function-level contracts they rest on: each of eight edit scripts and of nine random edit histories (108 in the thorough tier) is mastered by the real new/add_*/rm_*/write_fp code inside pyvc; an independent ECMA-119/Joliet/RRIP reader must find exactly the implied ISO9660, Joliet and Rock Ridge trees, names, types, link counts, symlink targets, hidden flags, every file byte for byte, valid structure, disjoint allocation and exact length; the library must reopen its image, show the same and re-master it identically (edits of reopened images: C02). One defect found and repaired (K38: ".." length).',
     'level_note': 'Scenario part is bounded (7 scripts) but symbolic in all file contents; trusted: pyvc executing ~15k lines of real code per scenario (mastering output cross-checked byte-identical with CPython), the independent reader, pinned clock. Not decided: arbitrary histories, UDF view.',
     'design_ref': 'DESIGN.md section 4 C01',
 }
